@@ -14,6 +14,9 @@ DEDUCTIVE = [
     {"module": "rnapolis.annotator", "sidecar": "contracts.determinism_c", "targets": ["find_pairs@order"]},
     {"module": "rnapolis.annotator", "sidecar": "contracts.determinism_stackings_c", "targets": ["find_stackings@determined"]},
     {"module": "rnapolis.common", "sidecar": "contracts.determinism_elems_c", "targets": ["BpSeq.elements@stops"]},
+    # observe_at Mapping2D3D.all_dot_brackets: the texts follow the (ordered, see first target) BpSeq list member for member - a
+    # `list(set(..))` on the way fails `one-text-per-dot-bracket` / the per-member clause (contract of C06's second sidecar)
+    {"module": "rnapolis.tertiary", "sidecar": "contracts.mapping_ext_c", "targets": ["Mapping2D3D.all_dot_brackets"]},
 ]
 TRUSTED = ["CPython 3.12 (str hash randomisation is the only seed-dependent source modelled; PYTHONHASHSEED 0,1,2,3,random)", "sha256",
            "third parties are observed, not trusted: CBC via pulp (solver), orjson, csv, pandas to_csv, mmcif IoAdapterPy writer",
